@@ -240,6 +240,9 @@ def meta_cases():
                             fr = np.asarray(md.model(p, x[::-1].copy()))
                             rec["shape_ok"] &= bool(
                                 np.array_equal(fr[::-1], f0))
+                        # a single sample is an abscissa too
+                        f1 = np.asarray(md.model(p, x[:1].copy()))
+                        rec["shape_ok"] &= bool(f1.shape == (1,))
                         b0 = p["baseline"].value
                         scale = float(np.max(np.abs(f0 - b0))) or 1.0
                         # translation: abscissa and contact point together
@@ -317,6 +320,16 @@ def meta_cases():
                                 ref = (data - mm) * w
                                 if not np.all(np.abs(r - ref)
                                               <= 1e-9 * scale):
+                                    rec["residual_ok"] = False
+                                # without the argument the documented
+                                # default distance (0.5 um) applies
+                                rd = np.asarray(md.residual(
+                                    pr, x, data.copy()), float)
+                                wdd = np.abs(x - cpr) / 5e-7
+                                wdd[wdd > 1] = 1
+                                if not toy and not np.all(
+                                        np.abs(rd - (data - mm) * wdd)
+                                        <= 1e-9 * scale):
                                     rec["residual_ok"] = False
                                 r0 = np.asarray(md.residual(
                                     pr, x, data.copy(), 0), float)
